@@ -336,6 +336,36 @@ def sign_law_part(chk):
     chk.count(n, traces=n // 2)
 
 
+def long_bound_part(chk):
+    """a bound that no value can violate (a year / number of thousands of digits as max, a hugely negative number as min) leaves the decision
+    to the other bound - whether the implementation can read such a string or treats it as absent does not matter"""
+    import warnings
+    warnings.simplefilter('ignore')
+    sv, bs4 = common.import_repo()
+    big = '9' * 5000
+    cases = [('date', '2020-01-01', big + '-12-31', '2019-06-01', '2021-06-01'), ('month', '2020-01', big + '-12', '2019-06', '2021-06'),
+             ('week', '2020-W10', big + '-W01', '2019-W10', '2021-W10'), ('datetime-local', '2020-01-01T00:00', big + '-01-01T00:00', '2019-01-01T00:00', '2021-01-01T00:00'),
+             ('number', '5', big, '4', '6'), ('range', '5', big + '.5', '4', '6')]
+    n = 0
+    for typ, mn, hugemax, below, above in cases:
+        for value, want in ((below, (False, True)), (above, (True, False))):
+            soup = bs4.BeautifulSoup('', 'html.parser')
+            t = soup.new_tag('input')
+            t.attrs.update({'type': typ, 'min': mn, 'max': hugemax, 'value': value})
+            soup.append(t)
+            n += 1
+            try:
+                got = (bool(sv.select(':in-range', soup)), bool(sv.select(':out-of-range', soup)))
+            except Exception as ex:
+                got = type(ex).__name__
+            chk.nontrivial('longbound:%s:%s' % (typ, value))
+            if got != want:
+                chk.violation('longbound|%s|%s' % (typ, value), '<input type=%s min=%s max=<%d digits...> value=%s> is (in-range, out-of-range) = %r, expected %r: '
+                              'the bound that can never be exceeded decided the answer' % (typ, mn, len(hugemax), value, got, want),
+                              {'cfg': 'long-bound', 'group': 'long bound ' + typ, 'type': typ})
+    chk.count(n, traces=n)
+
+
 def typeless_probe(chk):
     sv, bs4 = common.import_repo()
     soup = bs4.BeautifulSoup('', 'html.parser')
@@ -636,6 +666,7 @@ def main(tier):
         ndocs, lines = trace_record(tier)
         typeless_probe(chk)
         sign_law_part(chk)
+        long_bound_part(chk)
         # the TLC runs go side by side (each has a serial start-up phase), read by one thread each
         if tier == 'quick':
             jobs = [mc_job(shared, 'MC_C18_cal', {'YearLo': 1, 'YearHi': 800, 'Full': 'FALSE', 'BatchSize': 100}, 'cal800', 12),
